@@ -9,6 +9,9 @@ def b2s (b : Bool) : String := if b then "1" else "0"
 
 structure FlowsSt where
   engine  : Bool
+  engine2 : Bool := false                 -- two overlapping flows, each with its own flow context
+  specs2  : AMap (String × Nat) := []     -- flow letter ↦ (processor key, attempts)
+  built   : Bool := false
   timeout : Option Int
   lo : Int := 0
   hi : Int := 0
@@ -38,10 +41,11 @@ def parseMode (ws : List String) : Option FlowsSt := do
   let t : Option Int ← if tmo == "unset" then some none else (tmo.toInt?).map some
   if mode == "direct" then
     pure { engine := false, timeout := t }
-  else if mode == "engine" then
+  else if mode == "engine" || mode == "engine2" then
     let lo ← kvInt ws "lo"
     let hi ← kvInt ws "hi"
-    if t.isNone then none else pure { engine := true, timeout := t, lo := lo, hi := hi }
+    if t.isNone then none
+    else pure { engine := mode == "engine", engine2 := mode == "engine2", timeout := t, lo := lo, hi := hi }
   else none
 
 def initResStr : InitRes → String
@@ -65,6 +69,14 @@ def flowsStep (s : RunSt) (ws : List String) : RunSt × String :=
     match s.fl, kv r "name", kvInt r "attempts", kvInt r "cooldown", kvInt r "mult4" with
     | some f, some nameE, some att, some cd, some k4 =>
       let name := pctDec nameE
+      if f.engine2 then
+        match kv r "flow" with
+        | some letter =>
+          if (letter != "A" && letter != "B") || f.built || cd != 0 || k4 != 0 || att < 1
+              || (name != "R" && name != "Q") || (lookup letter f.specs2).isSome then (s, "bad-op")
+          else ({ s with fl := some { f with specs2 := insert letter (name, att.toNat) f.specs2 } }, "ok")
+        | none => (s, "bad-op")
+      else
       if f.engine && (!f.procs.isEmpty || name != "R") then (s, "bad-op") else
       let res := initProc att cd k4 f.timeout
       if res == .ok then
@@ -94,15 +106,56 @@ def flowsStep (s : RunSt) (ws : List String) : RunSt × String :=
           let (m', o) := fstep p f.ctr key
           ({ s with fl := some { f with ctr := m', keys := addKey key f.keys } }, fmtFOut o (lookup key m').isSome)
     | _, _, _ => (s, "bad-op")
+  | ["fbuild"] =>
+    match s.fl with
+    | some f =>
+      if !f.engine2 || f.built || f.specs2.isEmpty then (s, "bad-op") else
+      let errs := ["A", "B"].filterMap fun l =>
+        match lookup l f.specs2 with
+        | some (_, att) => let r := initProc att 0 0 f.timeout; if r == .ok then none else some r
+        | none => none
+      match errs with
+      | e :: _ => (s, initResStr e)
+      | [] => ({ s with fl := some { f with built := true } }, "ok")
+    | none => (s, "bad-op")
+  | "fx2" :: r =>
+    match s.fl, kv r "seq", kvNat r "both", kvInt r "status" with
+    | some f, some sE, some both, some status =>
+      if !f.built || both > 1 then (s, "bad-op") else
+      let seq := pctDec sE
+      let inR := status >= f.lo && status <= f.hi
+      -- each flow has its own context: disjoint key spaces `<flow>/<counter key>`
+      let runFlow (m : AMap Nat) (l : String) (matches_ : Bool) : AMap Nat × String × Bool :=
+        match lookup l f.specs2 with
+        | some (key, att) =>
+          if !matches_ then (m, "-", false)
+          else if inR then
+            let (m', o) := fstep ⟨att, 0, 0⟩ m (l ++ "/" ++ counterKey key seq)
+            match o with
+            | .retry _ => (m', "retry", true)
+            | .failed => (m', "failed", false)
+          else (m, "skip", false)
+        | none => (m, "-", false)
+      let (m1, ta, ra) := runFlow f.ctr "A" true
+      let (m2, tb, rb) := runFlow m1 "B" (both == 1)
+      let ctrOf (l : String) : Bool :=
+        match lookup l f.specs2 with
+        | some (key, _) => (lookup (l ++ "/" ++ counterKey key seq) m2).isSome
+        | none => false
+      ({ s with fl := some { f with ctr := m2 } },
+       s!"A={ta} B={tb} wait=0 act={b2s (ra || rb)} ctrA={b2s (ctrOf "A")} ctrB={b2s (ctrOf "B")}")
+    | _, _, _, _ => (s, "bad-op")
   | "fq" :: r =>
     match s.fl, kv r "p", kv r "seq" with
     | some f, some pE, some sE =>
+      if f.engine2 then (s, "bad-op") else
       if f.engine && f.procs.isEmpty then (s, "bad-op") else
       (s, s!"ctr={b2s (lookup (counterKey (pctDec pE) (pctDec sE)) f.ctr).isSome}")
     | _, _, _ => (s, "bad-op")
   | ["fleak"] =>
     match s.fl with
     | some f =>
+      if f.engine2 then (s, "bad-op") else
       if f.engine && f.procs.isEmpty then (s, "bad-op") else
       (s, s!"leaked={(f.keys.filter fun k => (lookup k f.ctr).isSome).length}")
     | none => (s, "bad-op")
@@ -187,7 +240,8 @@ def runStep (s : RunSt) (line : String) : RunSt × String :=
   match words line with
   | ["case", id] => ({}, s!"case {id}")
   | w :: r =>
-    if w == "fmode" || w == "fproc" || w == "fx" || w == "fq" || w == "fleak" then flowsStep s (w :: r)
+    if w == "fmode" || w == "fproc" || w == "fx" || w == "fq" || w == "fleak" || w == "fbuild" || w == "fx2" then
+      flowsStep s (w :: r)
     else if w == "pcfg" || w == "presp" || w == "adv" || w == "jump" || w == "pbulk"
         || w == "dcfg" || w == "dreq" || w == "dresp" then policyStep s (w :: r)
     else (s, "bad-op")
@@ -200,6 +254,7 @@ structure JudgeSt where
   lo : Int := 0
   hi : Int := 0
   procs : AMap PCfg := []
+  specs2 : AMap (String × Nat) := []
   fev : List FEvent := []        -- most recent first
   pcfg : Option RCfg := none
   pev : List PEvent := []        -- most recent first (reversed at the end)
@@ -225,9 +280,41 @@ def judgeStep (s : JudgeSt) (op out : String) : JudgeSt :=
       if out == "ok" then
         -- a processor that accepts fewer than one attempt is outside its own contract
         if att < 1 then setBad s "processor-accepted-attempts-below-1"
+        else if (kv r "flow").isSome then
+          { s with specs2 := insert ((kv r "flow").getD "") (pctDec nameE, att.toNat) s.specs2 }
         else { s with procs := insert (pctDec nameE) ⟨att.toNat, cd.toNat, k4.toNat⟩ s.procs }
       else s
     | _, _, _, _ => s
+  | "fx2" :: r =>
+    -- two overlapping flows: each flow that matches the call must count the sequence on its own
+    match kv r "seq", kvNat r "both", kvInt r "status", kv ows "A", kv ows "B", kvNat ows "act",
+          kvNat ows "ctrA", kvNat ows "ctrB" with
+    | some sE, some both, some status, some ta, some tb, some act, some ca, some cb =>
+      let seq := pctDec sE
+      let inR := decide (status >= s.lo) && decide (status <= s.hi)
+      let one (st : JudgeSt × Bool) (l tag : String) (matches_ : Bool) (ctr : Nat) : JudgeSt × Bool :=
+        let (s, anyRetry) := st
+        match lookup l s.specs2 with
+        | none => if tag == "-" then (s, anyRetry) else (setBad s s!"unconfigured-flow-{l}-ran", anyRetry)
+        | some (key, att) =>
+          if !matches_ then
+            (if tag == "-" then (s, anyRetry) else (setBad s s!"flow-{l}-ran-outside-its-filter", anyRetry))
+          else if tag == "-" then (setBad s s!"flow-{l}-did-not-run", anyRetry)
+          else if !(tag == "skip" || tag == "retry" || tag == "failed") then
+            (setBad s ("unknown-answer:" ++ pctEnc tag), anyRetry)
+          else if inR == (tag == "skip") then
+            (setBad s s!"gate-violated flow={l} in-range={b2s inR} answer={tag}", anyRetry)
+          else if tag == "skip" then (s, anyRetry)
+          else if tag == "failed" && ctr != 0 then (setBad s s!"counter-kept-after-failed flow={l}", anyRetry)
+          else
+            let o : FOut := if tag == "retry" then .retry 0 else .failed
+            ({ s with fev := ⟨⟨att, 0, 0⟩, l ++ "/" ++ counterKey key seq, o⟩ :: s.fev },
+             anyRetry || tag == "retry")
+      let (s1, r1) := one (s, false) "A" ta true ca
+      let (s2, r2) := one (s1, r1) "B" tb (both == 1) cb
+      if (act != 0) != r2 then setBad s2 s!"retry-action-present={act}-but-some-processor-asked-retry={b2s r2}"
+      else s2
+    | _, _, _, _, _, _, _, _ => setBad s ("unparsable-answer:" ++ pctEnc out)
   | "fx" :: r =>
     match kv r "p", kv r "seq", ows.head?, kvNat ows "wait", kvNat ows "act", kvNat ows "ctr" with
     | some pE, some sE, some tag, some wait, some act, some ctr =>
